@@ -3,13 +3,16 @@ import McpModel.Wire.Sse
 import McpModel.Wire.Result
 import McpModel.Wire.Spell
 import McpModel.Wire.Input
+import McpModel.Wire.Monitor
 /-!
 Driver for E2 `Wire` (C19, and the id / batch streams of C02).
 
 Every harness record is one operation on one of the pure functions of the model (`enc`, `dec`,
 `werr`, `idecho`, `sse.*`, `c.*`, `r.*`) or one label of the `ioConn` machine (`io.*`).  The driver
-computes the model's observation in the same canonical token form and evaluates the property
-monitors on the IMPLEMENTATION's observation.  Monitors are selected by the first command-line
+computes the model's observation in the same canonical token form, parses the IMPLEMENTATION's
+observation into the typed records of `Monitor.lean` and evaluates the typed property monitors
+(`Mon.<op>Monitor`, `Mon.ioRead` / `Mon.ioWrite`) on them; what is left here is the string layer: token
+parsing, rendering of the model's observation, and the clause texts (`clauseText`).  Monitors are selected by the first command-line
 argument (`C19` default, `C02`), clause texts carry the property id; further arguments name
 properties the same stream serves as well (`C02 C03`: the batch stream also judges the order in which
 `Read` hands the messages of a batch out, clause prefix `C03:`).
@@ -41,28 +44,11 @@ model's `unquote`); Id `- i<n> s<hex>`; Msg `req <id> s<method> <params|->` /
 `resp <id> <result|-> <err|->` with err `e<code> s<msg> <data|->`.
 -/
 namespace Wire
-open Proto Generated.Wire
+open Proto Generated.Wire Mon
 
 /-! ## printing -/
 
 def hexB (b : Bytes) : String := bytesToHex b
-
-def bytesLt : Bytes → Bytes → Bool
-  | [], [] => false
-  | [], _ => true
-  | _, [] => false
-  | a :: as, b :: bs => if a < b then true else if a > b then false else bytesLt as bs
-
-def insertSorted (p : Bytes × JVal) : List (Bytes × JVal) → List (Bytes × JVal)
-  | [] => [p]
-  | q :: t => if bytesLt p.1 q.1 then p :: q :: t else q :: insertSorted p t
-
-def sortMembers (l : List (Bytes × JVal)) : List (Bytes × JVal) := l.foldl (fun acc p => insertSorted p acc) []
-
-/-- last-wins de-duplication (objects the model builds never have duplicates; inputs might) -/
-def dedupLast : List (Bytes × JVal) → List (Bytes × JVal)
-  | [] => []
-  | (k, v) :: t => if t.any (fun q => q.1 = k) then dedupLast t else (k, v) :: dedupLast t
 
 partial def showJ : JVal → String
   | .null => "z"
@@ -334,24 +320,6 @@ def pFEvent : P FEvent
     | _ => none
   | _ => none
 
-def eolMix (es : List Eol) : String :=
-  if es.all (· == .lf) then "every line ended by LF"
-  else if es.all (· == .crlf) then "every line ended by CRLF"
-  else "lines ended by a mix of LF and CRLF"
-
-def fstreamEols (es : List FEvent) : List Eol := es.flatMap (fun e => e.lines.map (·.eol) ++ [e.endEol])
-
-/-- what a foreign stream exercises, for the clause text -/
-def fstreamFeatures (es : List FEvent) : String :=
-  let ls := es.flatMap (·.lines)
-  let has (p : FLine → Bool) := ls.any p
-  ", ".intercalate ([eolMix (fstreamEols es)] ++
-    (if has (fun l => l.key == []) then ["comment lines"] else []) ++
-    (if es.any (fun e => (e.lines.filter (fun l => l.key == sse_dataKey)).length > 1) then ["data over several lines"] else []) ++
-    (if has (fun l => l.key == sse_retryKey) then ["retry lines"] else []) ++
-    (if has (fun l => !sseKeys.contains l.key && l.key != []) then ["unknown fields"] else []) ++
-    (if has (fun l => sseKeys.contains l.key && l.pad != [32]) then ["no or several blanks after the colon"] else []))
-
 structure PgState where
   ps : Nat := 1
   tools : List Bytes := []
@@ -410,71 +378,7 @@ def memberName (k : RKind) : String :=
   | .listTools => "tools" | .listPrompts => "prompts" | .listResources => "resources"
   | .listResourceTemplates => "resourceTemplates" | _ => "?"
 
-/-! ## monitors -/
-
-def two53 : Int := 9007199254740992
-
-/-- no member name occurs twice (the generators never produce duplicates; the monitors keep to that) -/
-def noDupKeys : JVal → Bool
-  | .obj kvs => (kvs.map (·.1)).eraseDups.length = kvs.length &&
-      (match lookup wireDecode_Error_name kvs with
-        | some (.obj e) => (e.map (·.1)).eraseDups.length = e.length
-        | _ => true)
-  | _ => true
-
-/-- The projections named by C19 of two wire objects agree; returns the first differing member. -/
-def wireDiff (w w' : JVal) : Option String :=
-  match proj w, proj w' with
-  | some a, some b =>
-    if a.id != b.id then some "id"
-    else if a.method != b.method then some "method"
-    else if a.params != b.params then some "params"
-    else if a.result != b.result then some "result"
-    else if a.errCode != b.errCode then some "error.code"
-    else if a.errMessage != b.errMessage then some "error.message"
-    else if a.errData != b.errData then some "error.data"
-    else if a.tag != b.tag then some "jsonrpc"
-    else none
-  | _, _ => some "shape"
-
-def bigInt : Option JVal → Bool
-  | some (.int n) => n > two53 || n < -two53
-  | _ => false
-
-/-- Does a message (as the implementation reports it) carry the members of wire value `w`? -/
-def msgMatchesWire (m : Msg) (w : JVal) : Bool := (wireDiff w (encodeMsg m)).isNone
-
-def cleanField (v : Bytes) : Bool := trim v = v && !v.contains LF
-
-def cleanEvent (e : Event) : Bool :=
-  cleanField e.name && cleanField e.id && cleanField e.retry && cleanField e.data && !e.isEmpty
-
-/-- Is a failure of `reqOK` located inside a nested `content` array (the F8 shape)? -/
-def reqTopOK : JVal → Bool
-  | .obj kvs =>
-    let ty := lookup wireContent_Type_name kvs
-    (if ty = some (.str kText) then isStr (lookup wireContent_Text_name kvs) else true) &&
-    (if ty = some (.str kImage) ∨ ty = some (.str kAudio) then isStr (lookup wireContent_Data_name kvs) else true) &&
-    (if ty = some (.str kToolResult) then hasArr kvs else true)
-  | _ => true
-
-/-- every embedded resource of a content block (and of the blocks nested in it) is `resourceOK` -/
-partial def embeddedOK : JVal → Bool
-  | .obj kvs =>
-    (match lookup wireContent_Type_name kvs, lookup wireContent_Resource_name kvs with
-      | some (.str ty), some r => if ty = kResource then resourceOK r else true
-      | _, _ => true) &&
-    (match lookup wireContent_NestedContent_name kvs with
-      | some (.arr l) => l.all embeddedOK
-      | _ => true)
-  | _ => true
-
-def f23Clause : String := "required_members_present: resource contents carry neither text nor blob (F23)"
-
 /-! ## contexts in which content is decoded -/
-
-inductive Shape where | one | list | oneOrMany
-deriving DecidableEq
 
 def ctxOf : String → Option (Shape × Option (List Bytes))
   | "tool" => some (.list, allowCallToolResult)
@@ -484,25 +388,6 @@ def ctxOf : String → Option (Shape × Option (List Bytes))
   | "cmr" => some (.one, allowCreateMessageResult)
   | "cmwt" => some (.oneOrMany, allowCreateMessageWithToolsResult)
   | _ => none
-
-/-- decode the `content` member of a wrapper in context `ctx` -/
-def decodeIn (sh : Shape) (allow : Option (List Bytes)) (j : Option JVal) : Except CErr (List Content) :=
-  match sh with
-  | .one => match j with
-    | none => .error .nilContent
-    | some v => (decodeContent allow v).map ([·])
-  | .list => match j with
-    | none => .ok []
-    | some v => decodeContentList allow v
-  | .oneOrMany => unmarshalContent allow j
-
-/-- encode the `content` member of a wrapper (SamplingMessageV2 / CreateMessageWithToolsResult
-write a single block as an object) -/
-def encodeIn (sh : Shape) (cs : List Content) : JVal :=
-  match sh, cs with
-  | .oneOrMany, [c] => encodeContent c
-  | .one, [c] => encodeContent c
-  | _, cs => .arr (encodeContents cs)
 
 def rkindOf : String → Option RKind
   | "tools/list" => some .listTools
@@ -516,6 +401,17 @@ def rkindOf : String → Option RKind
   | "resources/read" => some .readResource
   | _ => none
 
+def rkindMethod : RKind → String
+  | .listTools => "tools/list"
+  | .listPrompts => "prompts/list"
+  | .listResources => "resources/list"
+  | .listResourceTemplates => "resources/templates/list"
+  | .listRoots => "roots/list"
+  | .callTool => "tools/call"
+  | .getPrompt => "prompts/get"
+  | .complete => "completion/complete"
+  | .readResource => "resources/read"
+
 def setPath : List Bytes → JVal → JVal → JVal
   | [], v, _ => v
   | k :: t, v, .obj kvs =>
@@ -523,45 +419,16 @@ def setPath : List Bytes → JVal → JVal → JVal
     .obj (kvs.filter (fun p => p.1 ≠ k) ++ [(k, setPath t v cur)])
   | _, _, j => j
 
-/-! ## ioConn monitor state (independent of the model state) -/
-
-structure MBatch where
-  slots : Slots
-  hasNotif : Bool := false
+/-! ## driver state: the model's `ioConn`, the typed monitor's bookkeeping (`Mon.IOMon`), the registries -/
 
 structure DState where
   pid : String := "C19"
   also : List String := []         -- further properties this stream serves (the batch stream: C03)
   io : IOState := {}
-  -- monitor
-  mwire : List JVal := []          -- frames fed, not yet taken
-  mopen : List MBatch := []        -- accepted batches with unanswered calls
-  mexpect : List JVal := []        -- elements of the accepted frame still to be returned by Read
-  mnoBatch : Bool := false
+  mon : IOMon := {}                -- the monitor's own bookkeeping (independent of `io`)
   eofFed : Bool := false           -- harness closed the input after the fed frames
   eofSeen : Bool := false          -- Read has reported the end of the stream
   pg : PgState := {}               -- paged lists: the registries of the server under test
-
-def frameElems : JVal → Option (List JVal × Bool)
-  | .arr l => some (l, true)
-  | v => some ([v], false)
-
-def isCallW : JVal → Option Id
-  | .obj kvs => match lookup wireDecode_Method_name kvs, lookup wireDecode_ID_name kvs with
-    | some _, some (.int n) => some (.int n)
-    | some _, some (.str s) => some (.str s)
-    | _, _ => none
-  | _ => none
-
-def isNotifW : JVal → Bool
-  | .obj kvs => (lookup wireDecode_Method_name kvs).isSome &&
-      (match lookup wireDecode_ID_name kvs with | none => true | some .null => true | _ => false)
-  | _ => false
-
-def wellFormedBatch (d : DState) (elems : List JVal) : Bool :=
-  let calls := elems.filterMap isCallW
-  elems ≠ [] && elems.all (fun e => validWire e && noDupKeys e) && calls.eraseDups.length = calls.length &&
-  calls.all (fun c => d.mopen.all (fun b => !slotPending b.slots c))
 
 def showWriteOut : WriteOut → String
   | .nothing => "nothing"
@@ -577,37 +444,6 @@ def showRErr : RErr → String
   | .seenId => "seen"
   | .eof => "eof"
 
-/-- monitor step for a message written through `ioConn.Write`: what the abstract spec (`specWrite`,
-the one `batch_exactly_once` is proved against) expects; also whether the batch concerned held a
-notification (to name F2). -/
-def monWrite (open_ : List MBatch) (msg : Msg) : List MBatch × SOut × Bool :=
-  let (sp', out) := specWrite (open_.map (·.slots)) msg
-  let hasNotif := match msg with
-    | .response id _ _ => ((open_.find? (fun b => slotPending b.slots id)).map (·.hasNotif)).getD false
-    | _ => false
-  -- re-attach the flags: a closed batch disappears, a filled one keeps its place
-  let open' : List MBatch :=
-    if sp'.length = open_.length then (List.zip sp' open_).map (fun p => { p.2 with slots := p.1 })
-    else match msg with
-      | .response id _ _ =>
-        let rec drop : List MBatch → List MBatch
-          | [] => []
-          | b :: t => if slotPending b.slots id then t else b :: drop t
-        drop open_
-      | _ => open_
-  (open', out, hasNotif)
-
-def pfx (d : DState) (s : String) : String := d.pid ++ ": " ++ s
-
-/-- monitor for a user handler that returned `(nil, nil)`: what must not happen (wire-F30) -/
-def nilResultViol (d : DState) (method impl : String) : Option String :=
-  if d.pid != "C19" then none
-  else if impl == "z" then
-    some (pfx d s!"required_members_present: the {method} handler returned (nil, nil) and \"result\":null was sent: no required member at all (wire-F30)")
-  else if impl == "panic" then
-    some (pfx d s!"required_members_present: the {method} handler returned (nil, nil) and the server process panicked (wire-F30)")
-  else some (pfx d s!"required_members_present: the {method} handler returned (nil, nil): no result with its required members was sent")
-
 def lastTok (s : String) : String := ((words s).getLast?).getD ""
 
 /-- the trailing layout token `L<k>` of a frame op (how the harness laid the JSON text out: blanks,
@@ -620,48 +456,258 @@ def stripLayout (toks : List String) : List String :=
 
 def frameOps : List String := ["io.feed", "io.rb", "h.post", "live.io", "live.cli"]
 
-/-- the monitor's "is this message that wire element" -/
-def sameMsgWire (m : Msg) (e : JVal) : Bool := validWire e && (wireDiff e (encodeMsg m)).isNone
+/-- ops whose JSON value may be preceded by the flag `rev` (member order of the text; the model does not see it) -/
+def revOps : List String := ["decenc", "casedec", "casedec.err"]
+
+/-! ## clause texts (byte-identical with what seeded/*/meta.json, known_findings.json and DESIGN.md quote) -/
 
 def orderClause : String := "ioConn.Read returned the messages of a batch out of the order in which they were written"
 
-def lowerB (b : UInt8) : UInt8 := if 65 ≤ b && b ≤ 90 then b + 32 else b
+def fieldName : Field → String
+  | .id => "id" | .method => "method" | .params => "params" | .result => "result"
+  | .errCode => "error.code" | .errMessage => "error.message" | .errData => "error.data"
+  | .tag => "jsonrpc" | .shape => "shape"
 
-/-- `k` is not `name` but equals it when case is ignored -/
-def caseVariant (name k : Bytes) : Bool := k != name && k.map lowerB == name.map lowerB
+def eolMixText : EolMix → String
+  | .allLF => "every line ended by LF"
+  | .allCRLF => "every line ended by CRLF"
+  | .mixed => "lines ended by a mix of LF and CRLF"
 
-/-- some `inputRequests` member somewhere in the value has a `null` entry -/
-partial def hasNullInputRequest : JVal → Bool
-  | .obj kvs => kvs.any (fun p =>
-      (p.1 == CallToolResult_InputRequests_name && (match p.2 with | .obj es => es.any (fun e => e.2 == .null) | _ => false)) ||
-      hasNullInputRequest p.2)
-  | .arr l => l.any hasNullInputRequest
-  | _ => false
+/-- what a foreign stream exercises, for the clause text -/
+def featuresText (f : Features) : String :=
+  ", ".intercalate ([eolMixText f.mix] ++
+    (if f.comments then ["comment lines"] else []) ++
+    (if f.multiData then ["data over several lines"] else []) ++
+    (if f.retry then ["retry lines"] else []) ++
+    (if f.unknown then ["unknown fields"] else []) ++
+    (if f.oddPad then ["no or several blanks after the colon"] else []))
 
-/-- the member names on the way to the node a path (child indices) points to -/
-def pathKeys : JVal → List Nat → List Bytes
-  | _, [] => []
-  | .obj kvs, i :: t => match kvs[i]? with
-    | some (k, v) => k :: pathKeys v t
-    | none => []
-  | .arr l, i :: t => match l[i]? with
-    | some v => pathKeys v t
-    | none => []
-  | _, _ => []
+def crashText : Crash → String
+  | .panic => "panicked"
+  | .hang => "did not return"
 
-def inputResponsesName : Bytes := [105, 110, 112, 117, 116, 82, 101, 115, 112, 111, 110, 115, 101, 115]
+def whichText : Which → String
+  | .next => "next"
+  | .first => "first"
 
-def f32Null : String := "decode_total: InputRequestMap.UnmarshalJSON panicked on a null entry of inputRequests (nil entry dereferenced, F32)"
+def frText : Option JVal → String
+  | some raw => frameDesc raw
+  | none => "already accepted (a queued message)"
+
+def howText (c : ContentKind) (sc ie : Bool) : String :=
+  (match c with | .nilC => "nil Content" | .emptyC => "empty Content" | .someC => "Content") ++
+  (if sc then " and StructuredContent" else "") ++ (if ie then " and IsError" else "")
+
+/-- the clause without the property prefix -/
+def clauseBody : Clause → String
+  | .encdecF1 => "decode_encode_msg: integer id beyond 2^53 altered by decoding the encoded message (F1)"
+  | .encdecNotBack => "decode_encode_msg: decoding the encoded message does not give the message back"
+  | .encdecNoEncoding => "decode_encode_msg: no encoding produced for a well-formed message"
+  | .respNeedsId => "response_needs_id: a response without id is accepted by DecodeMessage"
+  | .edpRejected => "encode_decode_preserves: a valid wire message is rejected by DecodeMessage"
+  | .edpIdF1 => "encode_decode_preserves: integer id beyond 2^53 altered by decode→encode (F1)"
+  | .edpId => "encode_decode_preserves: id not preserved by decode→encode"
+  | .edpMember f => s!"encode_decode_preserves: member {fieldName f} not preserved by decode→encode"
+  | .edpReencFailed => "encode_decode_preserves: re-encoding failed"
+  | .badObservation => "bad-observation"
+  | .caseMatched => "decode_case_sensitive: a member whose name differs in case from a wire member was matched"
+  | .caseMatchedErr =>
+    "decode_case_sensitive: a member of the error object whose name differs in case from code / message / data was matched (the error object is decoded without regard to case)"
+  | .werrCode => "wire_error_wrap: code is not that of the first wrapped wire error"
+  | .werrMessage => "wire_error_wrap: message is not the outermost error's text"
+  | .werrNoObject => "wire_error_wrap: no error object on the wire"
+  | .dtDecodeMessage => "decode_total: DecodeMessage panicked on input bytes"
+  | .idRejected => "id_echo_exact: a call whose id is a valid JSON string is rejected by DecodeMessage, so no response bears its id"
+  | .idStrNotExact => "id_echo_exact: string id not echoed exactly"
+  | .idIntF1 => "id_echo_exact: integer id beyond 2^53 echoed with a different value (F1)"
+  | .idIntDiff => "id_echo_exact: integer id echoed with a different value"
+  | .dtScan .panic => "decode_total: scanEvents panicked on input bytes"
+  | .dtScan .hang => "decode_total: scanEvents did not return on input bytes"
+  | .sseRoundtrip => "sse_roundtrip: scanning the written events does not return them"
+  | .sseEolIrrelevant mix rm =>
+    s!"sse_eol_irrelevant: scanEvents reads an event stream with {eolMixText mix} differently from the same lines ended by LF" ++
+      (if rm then " (it reports a malformed event)" else "")
+  | .sseAnyEol feat rm =>
+    s!"sse_roundtrip_any_eol: a well-formed event stream of a foreign peer ({featuresText feat}) is not scanned to the events it denotes" ++
+      (if rm then ": scanEvents reports a malformed event" else "")
+  | .f23 => "required_members_present: resource contents carry neither text nor blob (F23)"
+  | .f8Nested => "required_members_present: a block nested in tool_result lacks its required text/data member (F8)"
+  | .contentLacks => "required_members_present: content block lacks a required member"
+  | .contentNoMarshal => "required_members_present: content did not marshal"
+  | .resourceNoMarshal => "required_members_present: resource contents did not marshal"
+  | .contentRoundtrip => "content_roundtrip: decoding the encoded content does not give the value back"
+  | .dtContentCtx ctx => s!"decode_total: decoding the content member of a {ctx} wrapper panicked"
+  | .dtContentFuzz => "decode_total: content/params decoder panicked on input bytes"
+  | .protoValueChanged => "content_roundtrip: protocol value changed by marshal→unmarshal→marshal"
+  | .nilResult method .sentNull =>
+    s!"required_members_present: the {method} handler returned (nil, nil) and \"result\":null was sent: no required member at all (wire-F30)"
+  | .nilResult method .panicked =>
+    s!"required_members_present: the {method} handler returned (nil, nil) and the server process panicked (wire-F30)"
+  | .nilResult method .nothing =>
+    s!"required_members_present: the {method} handler returned (nil, nil): no result with its required members was sent"
+  | .callContentNull c sc ie =>
+    s!"required_members_present: the content member of the tools/call result is null or missing (raw tool handler returned {howText c sc ie})"
+  | .callBlockLacks => "required_members_present: a content block of the tools/call result lacks a required member"
+  | .callContentDiffers => "call_tool_content_present: the content array sent is not the encoding of the handler's blocks"
+  | .callStructuredDiffers => "call_tool_content_present: structuredContent sent is not the handler's value"
+  | .callIsErrorDiffers => "call_tool_content_present: isError sent is not the handler's flag"
+  | .callPanicked => "required_members_present: the server panicked while answering tools/call"
+  | .callNoResult => "required_members_present: no tools/call result was sent for a handler result"
+  | .reqListNull method f15 =>
+    s!"required_members_present: required list member of the {method} result is null or missing" ++ (if f15 then " (F15)" else "")
+  | .zeroNoResult => "required_members_present: no result"
+  | .pgNull k keys c ps emptyPage =>
+    s!"required_lists_present: \"{memberName k}\":null in the {rkindMethod k} result on the wire — {cursorPos keys c}, page size {ps}: the list member must be an array" ++
+      (if emptyPage then " (here the EMPTY array)" else "")
+  | .pgMissing k keys c ps =>
+    s!"required_lists_present: the {rkindMethod k} result on the wire has no \"{memberName k}\" member — {cursorPos keys c}, page size {ps}"
+  | .pgNotArray k keys c ps =>
+    s!"required_lists_present: the \"{memberName k}\" member of the {rkindMethod k} result on the wire is not an array — {cursorPos keys c}, page size {ps}"
+  | .readGone02 c fr =>
+    s!"batch_exactly_once: ioConn.Read {crashText c} on the frame {frText fr}: the reader is gone, no call is answered any more"
+  | .dtRead c fr => s!"decode_total: ioConn.Read {crashText c} on the frame {frText fr}"
+  | .order19 => "batch_roundtrip: " ++ orderClause
+  | .order03 => orderClause
+  | .sameIdF1 w => s!"batch_roundtrip: Read returned the frame's {whichText w} element with its integer id beyond 2^53 altered (F1)"
+  | .sameId w => s!"batch_roundtrip: Read returned a message whose id differs from the frame's {whichText w} element"
+  | .sameMember f w => s!"batch_roundtrip: Read returned a message whose {fieldName f} differs from the frame's {whichText w} element"
+  | .readFailedQueued => "batch_roundtrip: Read failed on a message of an already accepted frame"
+  | .readAtEnd => "batch_roundtrip: Read returned something at the end of the input"
+  | .queued19 n q => s!"batch_roundtrip: Read took a frame of {n} messages but queued {q} for the following reads"
+  | .lost n q =>
+    s!"ioConn.Read took a frame of {n} messages but queued {q} for the following reads: the other messages of the batch are lost (a lost response leaves its call blocked for ever, a lost call is never answered, a lost notification is never dispatched)"
+  | .rejectedF2_19 => "batch_roundtrip: a well-formed batch containing a notification is rejected by Read (notifications are tracked like calls, F2)"
+  | .rejected19 => "batch_roundtrip: a well-formed frame is rejected by Read"
+  | .rejectedF2_02 => "batch_exactly_once: a well-formed batch containing a notification is rejected as a duplicate id; the read error tears the session down (F2)"
+  | .rejected02 => "batch_exactly_once: a well-formed batch is rejected by Read"
+  | .dtWrite => "decode_total: ioConn.Write panicked"
+  | .badFrame => "ndjson_roundtrip: the bytes written are not one compact payload followed by a single LF"
+  | .writtenDiffers => "batch_roundtrip: the message written differs from the message given"
+  | .dtNdReader .panic => "decode_total: the reader of an io connection panicked on input bytes"
+  | .dtNdReader .hang => "decode_total: the reader of an io connection did not return on input bytes"
+  | .ndNotValueByValue =>
+    "ndjson_roundtrip: the reader of an io connection does not hand on the values of a newline-delimited stream one by one as written (objects / arrays, each followed by LF or CRLF)"
+  | .writePanic02 => "batch_exactly_once: ioConn.Write panicked"
+  | .flushedEarly => "batch_exactly_once: batch reply flushed before the last call of the batch was answered"
+  | .notOnItsOwn => "batch_exactly_once: a message outside any batch was not written on its own"
+  | .arrayNotExact => "batch_exactly_once: the flushed array is not exactly one response per call of the batch, in call order"
+  | .withheld true => "batch_exactly_once: batch reply withheld after its last call was answered — the batch contains a notification (F2)"
+  | .withheld false => "batch_exactly_once: batch reply withheld after its last call was answered"
+  | .lastOnItsOwn => "batch_exactly_once: last response of a batch written on its own instead of the batch array"
+  | .dtReadBatch raw => s!"decode_total: readBatch panicked on the frame {frameDesc raw}"
+  | .rbAcceptedEmpty raw =>
+    s!"batch_roundtrip: readBatch accepted the frame {frameDesc raw}, which carries no message (ioConn.Read takes msgs[0] of what it returns)"
+  | .dtPost .panic path raw => s!"decode_total: the {path} POST handler panicked on the body {frameDesc raw}"
+  | .dtPost .hang path raw => s!"decode_total: the {path} POST handler did not return on the body {frameDesc raw}"
+  | .dtLiveIo .panic raw => s!"decode_total: a server session on an io transport panicked on the frame {frameDesc raw} (the process crashed)"
+  | .dtLiveIo .hang raw => s!"decode_total: a server session on an io transport neither answered nor ended after the frame {frameDesc raw}"
+  | .dtLiveCli .panic kind raw => s!"decode_total: the streamable client panicked on the {kind} response body {frameDesc raw} (the process crashed)"
+  | .dtLiveCli .hang kind raw => s!"decode_total: the streamable client's call neither returned nor failed on the {kind} response body {frameDesc raw}"
+  | .sseCliFailed f =>
+    s!"sse_roundtrip_any_eol: the streamable client's call failed although its response arrived in a well-formed event stream (framing {f}: a peer may end lines in CRLF, send comments, ids, retry and split data)"
+  | .f32Null => "decode_total: InputRequestMap.UnmarshalJSON panicked on a null entry of inputRequests (nil entry dereferenced, F32)"
+  | .dtNearValid ty => s!"decode_total: decoding a {ty} panicked on a near-valid JSON value (a null / wrong-typed / wrong-case member)"
+  | .dtCase ty name => s!"decode_total: decoding a {ty} panicked on a value with the member {name} spelled in another case"
+  | .caseF32 ty name =>
+    s!"decode_case_sensitive: below inputRequests / inputResponses member names are matched without regard to case (InputRequestMap / InputResponseMap decode with encoding/json, F32): decoding a {ty} matched a member spelled {name}"
+  | .caseDeclared ty name =>
+    s!"decode_case_sensitive: decoding a {ty} matched a member spelled {name}, which differs in case from the declared name"
+  | .dtIrm => "decode_total: InputRequestMap.UnmarshalJSON panicked on a near-valid value"
+  | .caseIrm =>
+    "decode_case_sensitive: InputRequestMap.UnmarshalJSON matched an entry member whose name differs in case from method/params (it decodes with encoding/json, F32)"
+
+/-- the clause as reported: prefixed with the property the stream is run for, except the two clauses
+that name their properties themselves -/
+def clauseText (pid : String) : Clause → String
+  | .lost n q => "C01+C02+C03: " ++ clauseBody (.lost n q)
+  | .order03 => "C03: " ++ clauseBody .order03
+  | c => pid ++ ": " ++ clauseBody c
+
+def pidOf : String → Pid
+  | "C02" => .c02
+  | "C03" => .c03
+  | _ => .c19
+
+/-! ## parsing the implementation's observation into the typed records of `Monitor.lean` -/
+
+def isPanic (impl : String) : Bool := impl == "panic"
+
+def crashOf (impl : String) : Option Crash :=
+  if impl == "panic" then some .panic else if impl == "hang" then some .hang else none
+
+/-- `ok <msg>` / `err <code> <class>` / anything else -/
+def pDecObs (s : String) : DecObs :=
+  match words s with
+  | "ok" :: r =>
+    (match pMsg r with
+      | some (m, []) => .ok m
+      | _ => .other s)
+  | ["err", c, cls] =>
+    (match c.toInt? with
+      | some n => .err n cls
+      | none => .other s)
+  | _ => .other s
+
+/-- `ev<n> <event>* ok|malformed` -/
+def pScanRes (toks : List String) : ScanRes :=
+  let txt := " ".intercalate toks
+  match toks with
+  | hd :: r =>
+    if hd.startsWith "ev" then
+      match pMany pEvent r with
+      | (es, ["ok"]) => if (hd.drop 2).toString.toNat? == some es.length then .scan es false else .garbled txt
+      | (es, ["malformed"]) => if (hd.drop 2).toString.toNat? == some es.length then .scan es true else .garbled txt
+      | _ => .garbled txt
+    else .garbled txt
+  | [] => .garbled txt
+
+def pResObs (impl : String) : ResObs :=
+  match pJ (words impl) with
+  | some (.obj kvs, []) => .obj kvs
+  | some (j, []) => .val j
+  | _ => if impl == "panic" then .panic else .other
+
+def pReadObs (impl : String) : ReadObs :=
+  match crashOf impl with
+  | some c => .crash c
+  | none =>
+    let q := ((lastTok impl).drop 1).toString.toNat?.getD 0
+    if impl.startsWith "msg " then
+      .msg (match words impl with
+        | "msg" :: r => (pMsg r).map (·.1)
+        | _ => none) q
+    else
+      .err (if impl.startsWith "err eof" then .eof else if impl.startsWith "err dup" then .dup
+        else if impl.startsWith "err seen" then .seen else .other) q
+
+def pWriteObs (impl : String) : WriteObs :=
+  let itoks := words impl
+  let kind : WKind := match itoks.head?.getD "" with
+    | "nothing" => .nothing | "single" => .single | "array" => .array
+    | "panic" => .panic | "badframe" => .badframe | _ => .other
+  { kind := kind, vals := (pMany pJ (itoks.drop 1)).1 }
 
 /-! ## the engine -/
 
 def bad (d : DState) : DState × Verdict := (d, { model := "bad-op" })
+
+/-- a verdict: the model's observation and, if the stream is run for C19, the clause of a C19-only monitor -/
+def out19 (d : DState) (model : String) (c : Option Clause) : DState × Verdict :=
+  (d, { model := model, violated := if d.pid == "C19" then c.map (clauseText d.pid) else none })
+
+/-- a verdict of a monitor that is not restricted to one property -/
+def outAny (d : DState) (model : String) (c : Option Clause) : DState × Verdict :=
+  (d, { model := model, violated := c.map (clauseText d.pid) })
 
 def stepWire (d : DState) (toks : List String) (impl : String) : DState × Verdict :=
   let itoks := words impl
   let toks := match toks with
     | k :: r => if frameOps.contains k then k :: stripLayout r else toks
     | [] => toks
+  -- `rev`: the harness rendered the members of every object in reverse order (text level; not modelled)
+  let toks := match toks with
+    | k :: "rev" :: r => if revOps.contains k then k :: r else toks
+    | _ => toks
   match toks with
   | ["reset"] => ({ pid := d.pid, also := d.also }, { model := "ok" })
   ----------------------------------------------------------------- message codec
@@ -674,48 +720,23 @@ def stepWire (d : DState) (toks : List String) (impl : String) : DState × Verdi
         | .error e => showDErr e
       let model := showJ j ++ " | " ++ back
       -- monitor: the implementation's own decode of its own encoding gives the message back
-      let viol :=
-        if d.pid == "C19" && wfMsg m then
-          match impl.splitOn " | " with
-          | [_, b] => if b == "ok " ++ showMsg m then none
-              else if bigInt (encodeId m.id) then some (pfx d "decode_encode_msg: integer id beyond 2^53 altered by decoding the encoded message (F1)")
-              else some (pfx d "decode_encode_msg: decoding the encoded message does not give the message back")
-          | _ => some (pfx d "decode_encode_msg: no encoding produced for a well-formed message")
-        else none
-      (d, { model := model, violated := viol })
+      let obs : Option DecObs := match impl.splitOn " | " with
+        | [_, b] => some (pDecObs b)
+        | _ => none
+      out19 d model (encdecMonitor m obs)
     | _ => bad d
   | "decenc" :: r =>
     match pJ r with
     | some (w, []) =>
-      let (model, _) := match decodeMsg w with
-        | .ok m => ("ok " ++ showMsg m ++ " | " ++ showJ (encodeMsg m), some m)
-        | .error e => (showDErr e ++ " | -", none)
-      -- a response (no "method") without id must be rejected
-      let respNoId : Bool := match w with
-        | .obj kvs => noDupKeys w && lookup wireDecode_VersionTag_name kvs == some (.str wireVersion) &&
-            (lookup wireDecode_Method_name kvs).isNone && (lookup wireDecode_ID_name kvs).isNone &&
-            validErr (lookup wireDecode_Error_name kvs)
-        | _ => false
-      let viol :=
-        if d.pid == "C19" && respNoId then
-          (if impl.startsWith "ok " then some (pfx d "response_needs_id: a response without id is accepted by DecodeMessage") else none)
-        else if d.pid == "C19" && validWire w && noDupKeys w then
-          match impl.splitOn " | " with
-          | [a, b] =>
-            if !a.startsWith "ok " then some (pfx d "encode_decode_preserves: a valid wire message is rejected by DecodeMessage")
-            else match pJ (words b) with
-              | some (w', []) =>
-                match wireDiff w w' with
-                | none => none
-                | some "id" =>
-                  let idw := match w with | .obj kvs => lookup wireDecode_ID_name kvs | _ => none
-                  if bigInt idw then some (pfx d "encode_decode_preserves: integer id beyond 2^53 altered by decode→encode (F1)")
-                  else some (pfx d "encode_decode_preserves: id not preserved by decode→encode")
-                | some f => some (pfx d s!"encode_decode_preserves: member {f} not preserved by decode→encode")
-              | _ => some (pfx d "encode_decode_preserves: re-encoding failed")
-          | _ => some (pfx d "bad-observation")
-        else none
-      (d, { model := model, violated := viol })
+      let model := match decodeMsg w with
+        | .ok m => "ok " ++ showMsg m ++ " | " ++ showJ (encodeMsg m)
+        | .error e => showDErr e ++ " | -"
+      let obs : DecEncObs := match impl.splitOn " | " with
+        | [_, b] =>
+          { accepted := impl.startsWith "ok ", paired := true,
+            reenc := match pJ (words b) with | some (w', []) => some w' | _ => none }
+        | _ => { accepted := impl.startsWith "ok ", paired := false, reenc := none }
+      out19 d model (decencMonitor w obs)
     | _ => bad d
   | "casedec" :: r =>
     -- a message with ONE member name changed in case: must decode like the object without it
@@ -725,36 +746,34 @@ def stepWire (d : DState) (toks : List String) (impl : String) : DState × Verdi
         | .ok m => "ok " ++ showMsg m
         | .error e => showDErr e
       let model := sh (.obj kvs) ++ " | " ++ sh (.obj (kvs.filter (fun p => p.1 ≠ nm)))
-      let viol := if d.pid != "C19" then none else
-        match impl.splitOn " | " with
-        | [a, b] => if a == b then none else some (pfx d "decode_case_sensitive: a member whose name differs in case from a wire member was matched")
-        | _ => some (pfx d "bad-observation")
-      (d, { model := model, violated := viol })
+      let obs : Option (DecObs × DecObs) := match impl.splitOn " | " with
+        | [a, b] => some (pDecObs a, pDecObs b)
+        | _ => none
+      out19 d model (casedecMonitor obs)
+    | _ => bad d
+  | "casedec.err" :: r =>
+    -- a response whose error object has ONE member name differing from code / message / data in case only:
+    -- must decode like the response whose error object does not have it
+    match (do let (nm, r) ← pStr r; let (w, r) ← pJ r; some (nm, w, r) : Option (Bytes × JVal × List String)) with
+    | some (nm, .obj kvs, []) =>
+      let sh (w : JVal) : String := match decodeMsg w with
+        | .ok m => "ok " ++ showMsg m
+        | .error e => showDErr e
+      let model := sh (.obj kvs) ++ " | " ++ sh (.obj (dropErrMember nm kvs))
+      let obs : Option (DecObs × DecObs) := match impl.splitOn " | " with
+        | [a, b] => some (pDecObs a, pDecObs b)
+        | _ => none
+      out19 d model (casedecErrMonitor obs)
     | _ => bad d
   | "werr" :: r =>
     match pGoErr r with
     | some (e, []) =>
-      let we := toWireError e
-      let model := showJ (encodeErr we)
-      let viol :=
-        if d.pid != "C19" then none else
-        match pJ itoks with
-        | some (.obj kvs, []) =>
-          let expCode : Int := match e with
-            | .wire w => w.code
-            | .other _ ws => match firstWireL ws with | some w => w.code | none => 0
-          let expMsg : Bytes := match e with | .wire w => w.message | .other m _ => m
-          if lookup WireError_Code_name kvs != some (.int expCode) then
-            some (pfx d "wire_error_wrap: code is not that of the first wrapped wire error")
-          else if lookup WireError_Message_name kvs != some (.str expMsg) then
-            some (pfx d "wire_error_wrap: message is not the outermost error's text")
-          else none
-        | _ => some (pfx d "wire_error_wrap: no error object on the wire")
-      (d, { model := model, violated := viol })
+      let obs : Option (List (Bytes × JVal)) := match pJ itoks with
+        | some (.obj kvs, []) => some kvs
+        | _ => none
+      out19 d (showJ (encodeErr (toWireError e))) (werrMonitor e obs)
     | _ => bad d
-  | ["fuzzdec", _] =>
-    let viol := if impl == "panic" then some (pfx d "decode_total: DecodeMessage panicked on input bytes") else none
-    (d, { model := "nopanic", violated := viol })
+  | ["fuzzdec", _] => outAny d "nopanic" (fuzzdecMonitor (isPanic impl))
   ----------------------------------------------------------------- id echo (C02)
   | "idecho" :: r =>
     match pJ r with
@@ -762,19 +781,12 @@ def stepWire (d : DState) (toks : List String) (impl : String) : DState × Verdi
       let model := match decodeID idv with
         | .ok id => showOJ (encodeId id)
         | .error e => showDErr e
-      let viol :=
-        match idv with
-        | .str _ => if impl == showJ idv then none
-            else if impl.startsWith "err " then some (pfx d "id_echo_exact: a call whose id is a valid JSON string is rejected by DecodeMessage, so no response bears its id")
-            else some (pfx d "id_echo_exact: string id not echoed exactly")
-        | .int n =>
-          if inInt64 n then
-            if impl == showJ idv then none
-            else if n > two53 || n < -two53 then some (pfx d "id_echo_exact: integer id beyond 2^53 echoed with a different value (F1)")
-            else some (pfx d "id_echo_exact: integer id echoed with a different value")
-          else none
-        | _ => none
-      (d, { model := model, violated := viol })
+      let obs : IdObs :=
+        if impl.startsWith "err " then .rejected
+        else match pOJ itoks with
+          | some (v, []) => .echoed v
+          | _ => .other
+      outAny d model (idechoMonitor idv obs)
     | _ => bad d
   ----------------------------------------------------------------- SSE
   | "sse.write" :: r =>
@@ -783,23 +795,17 @@ def stepWire (d : DState) (toks : List String) (impl : String) : DState × Verdi
     | _ => bad d
   | ["sse.scan", x] =>
     match pHexTok "x" x with
-    | some bs =>
-      let viol := if impl == "panic" then some (pfx d "decode_total: scanEvents panicked on input bytes") else none
-      (d, { model := showScan (scanEvents bs), violated := viol })
+    | some bs => outAny d (showScan (scanEvents bs)) (scanPanicMonitor (isPanic impl))
     | none => bad d
   | "sse.rt" :: r =>
     match (match pMany pEvent r with | (es, []) => some es | _ => none : Option (List Event)) with
     | some es =>
       let bytes := es.flatMap writeEvent
       let model := "x" ++ hexB bytes ++ " " ++ showScan (scanEvents bytes)
-      let viol :=
-        if d.pid == "C19" && es.all cleanEvent then
-          match itoks with
-          | _ :: rest => if " ".intercalate rest == showScan (es, false) then none
-              else some (pfx d "sse_roundtrip: scanning the written events does not return them")
-          | _ => some (pfx d "bad-observation")
-        else none
-      (d, { model := model, violated := viol })
+      let obs : ScanObs := match itoks with
+        | _ :: rest => .res (pScanRes rest)
+        | [] => .missing
+      out19 d model (sseRtMonitor es obs)
     | none => bad d
   | "sse.lines" :: r =>
     -- arbitrary LF-free lines, each with its own line end, optionally an unterminated rest (`e x<hex>`):
@@ -815,20 +821,12 @@ def stepWire (d : DState) (toks : List String) (impl : String) : DState × Verdi
         let a := showScan (scanEvents bytes)
         let b := showScan (scanEvents (frame (ls.map (·.1)) ++ rest))
         let model := "x" ++ hexB bytes ++ " " ++ a ++ " | " ++ b
-        let viol :=
-          if d.pid != "C19" then none
-          else if impl == "panic" then some (pfx d "decode_total: scanEvents panicked on input bytes")
-          else if impl == "hang" then some (pfx d "decode_total: scanEvents did not return on input bytes")
-          else if ls.all (fun p => !p.1.contains LF) && !rest.contains LF then
-            match impl.splitOn " | " with
-            | [ia, ib] =>
-              let sa := " ".intercalate ((words ia).drop 1)
-              if sa == ib then none
-              else some (pfx d s!"sse_eol_irrelevant: scanEvents reads an event stream with {eolMix (ls.map (·.2))} differently from the same lines ended by LF" ++
-                (if lastTok sa == "malformed" && lastTok ib != "malformed" then " (it reports a malformed event)" else ""))
-            | _ => some (pfx d "bad-observation")
-          else none
-        (d, { model := model, violated := viol })
+        let obs : LinesObs := match crashOf impl with
+          | some c => .crash c
+          | none => match impl.splitOn " | " with
+            | [ia, ib] => .pair (pScanRes ((words ia).drop 1)) (pScanRes (words ib))
+            | _ => .garbled
+        out19 d model (sseLinesMonitor ls rest obs)
       | none => bad d
   | "sse.frn" :: r =>
     -- an event stream as a foreign peer frames it; the harness is that peer
@@ -836,20 +834,12 @@ def stepWire (d : DState) (toks : List String) (impl : String) : DState × Verdi
     | some es =>
       let bytes := renderStream es
       let model := "x" ++ hexB bytes ++ " " ++ showScan (scanEvents bytes)
-      let viol :=
-        if d.pid != "C19" then none
-        else if impl == "panic" then some (pfx d "decode_total: scanEvents panicked on input bytes")
-        else if impl == "hang" then some (pfx d "decode_total: scanEvents did not return on input bytes")
-        else if es.all (fun e => e.lines.all wfFLine) then
-          let want := showScan ((es.map FEvent.denote).filter (fun e => !e.isEmpty), false)
-          match itoks with
-          | _ :: rest =>
-            if " ".intercalate rest == want then none
-            else some (pfx d s!"sse_roundtrip_any_eol: a well-formed event stream of a foreign peer ({fstreamFeatures es}) is not scanned to the events it denotes" ++
-              (if lastTok impl == "malformed" then ": scanEvents reports a malformed event" else ""))
-          | _ => some (pfx d "bad-observation")
-        else none
-      (d, { model := model, violated := viol })
+      let obs : ScanObs := match crashOf impl with
+        | some c => .crash c
+        | none => match itoks with
+          | _ :: rest => .res (pScanRes rest)
+          | [] => .missing
+      out19 d model (sseFrnMonitor es obs)
     | none => bad d
   | ["sse.spaces"] =>
     (d, { model := "x" ++ hexB (([9, 10, 11, 12, 13, 32] : Bytes) ++ spaceSeqs.flatten) })
@@ -857,16 +847,8 @@ def stepWire (d : DState) (toks : List String) (impl : String) : DState × Verdi
   | "c.enc" :: r =>
     match pC r with
     | some (c, []) =>
-      let j := encodeContent c
-      let viol :=
-        if d.pid != "C19" then none else
-        match pJ itoks with
-        | some (ji, []) =>
-          if reqOK ji then (if embeddedOK ji then none else some (pfx d f23Clause))
-          else if reqTopOK ji then some (pfx d "required_members_present: a block nested in tool_result lacks its required text/data member (F8)")
-          else some (pfx d "required_members_present: content block lacks a required member")
-        | _ => some (pfx d "required_members_present: content did not marshal")
-      (d, { model := showJ j, violated := viol })
+      let obs : Option JVal := match pJ itoks with | some (ji, []) => some ji | _ => none
+      out19 d (showJ (encodeContent c)) (cencMonitor obs)
     | _ => bad d
   | "c.res" :: r =>
     -- json.Marshal(&ResourceContents{…}); blob: "-" nil, else the base64 text of a non-nil slice
@@ -878,12 +860,8 @@ def stepWire (d : DState) (toks : List String) (impl : String) : DState × Verdi
         let (m, r) ← pMeta r
         some (u, mi, t, b, m, r) : Option (Bytes × Bytes × Bytes × Option Bytes × Meta × List String)) with
     | some (u, mi, t, b, m, []) =>
-      let viol :=
-        if d.pid != "C19" then none else
-        match pJ itoks with
-        | some (ji, []) => if resourceOK ji then none else some (pfx d f23Clause)
-        | _ => some (pfx d "required_members_present: resource contents did not marshal")
-      (d, { model := showJ (encodeResource u mi t b m), violated := viol })
+      let obs : Option JVal := match pJ itoks with | some (ji, []) => some ji | _ => none
+      out19 d (showJ (encodeResource u mi t b m)) (cresMonitor obs)
     | _ => bad d
   | "c.rt" :: ctx :: r =>
     match ctxOf ctx, pCList r with
@@ -893,16 +871,13 @@ def stepWire (d : DState) (toks : List String) (impl : String) : DState × Verdi
       let model := showJ j ++ " | " ++ (match res with
         | .ok cs' => "ok " ++ showCList cs'
         | .error e => showCErr e)
-      let inDomain := cs.all (fun c => wfContent c && allowed allow c.kind) &&
-        (match sh with | .one => cs.length = 1 | .oneOrMany => cs ≠ [] | .list => true)
-      let viol :=
-        if d.pid == "C19" && inDomain then
-          match impl.splitOn " | " with
-          | [_, b] => if b == "ok " ++ showCList cs then none
-              else some (pfx d "content_roundtrip: decoding the encoded content does not give the value back")
-          | _ => some (pfx d "bad-observation")
-        else none
-      (d, { model := model, violated := viol })
+      let obs : Option (Option (List Content)) := match impl.splitOn " | " with
+        | [_, b] =>
+          some (match words b with
+            | "ok" :: r => (match pCList r with | some (cs', []) => some cs' | _ => none)
+            | _ => none)
+        | _ => none
+      out19 d model (crtMonitor sh allow cs obs)
     | _, _ => bad d
   | "c.dec" :: ctx :: r =>
     match ctxOf ctx, pOJ r with
@@ -910,24 +885,19 @@ def stepWire (d : DState) (toks : List String) (impl : String) : DState × Verdi
       let model := match decodeIn sh allow j with
         | .ok cs => "ok " ++ showCList cs
         | .error e => showCErr e
-      let viol := if d.pid == "C19" && impl == "panic" then
-          some (pfx d s!"decode_total: decoding the content member of a {ctx} wrapper panicked") else none
-      (d, { model := model, violated := viol })
+      out19 d model (cdecMonitor ctx (isPanic impl))
     | _, _ => bad d
-  | "c.fuzz" :: _ =>
-    let viol := if impl == "panic" then some (pfx d "decode_total: content/params decoder panicked on input bytes") else none
-    (d, { model := "nopanic", violated := viol })
+  | "c.fuzz" :: _ => outAny d "nopanic" (cfuzzMonitor (isPanic impl))
   | "r.rt" :: _ty :: r =>
     match pJ r with
     | some (j1, []) =>
-      let viol := if d.pid == "C19" && impl != showJ j1 then
-          some (pfx d "content_roundtrip: protocol value changed by marshal→unmarshal→marshal") else none
-      (d, { model := showJ j1, violated := viol })
+      let obs : Option JVal := match pJ itoks with | some (ji, []) => some ji | _ => none
+      out19 d (showJ j1) (rrtMonitor j1 obs)
     | _ => bad d
   | "r.call" :: _ver :: "err" :: [] => (d, { model := "error" })
   | "r.call" :: _ver :: r =>
     match (match r with
-      | ["nilres"] => some (ToolRet.nilResult, none, none, false)
+      | ["nilres"] => some ToolRet.nilResult
       | "res" :: r => (do
         let (c, r) ← (match r with
           | "nil" :: r => some (none, r)
@@ -938,44 +908,20 @@ def stepWire (d : DState) (toks : List String) (impl : String) : DState × Verdi
           | "raw" :: r => (pJ r).map (fun (v, r) => (some v, r))
           | _ => none : Option (Option JVal × List String))
         let ie ← (match r with | ["0"] => some false | ["1"] => some true | _ => none : Option Bool)
-        some (ToolRet.result c sc ie, c, sc, ie))
-      | _ => none : Option (ToolRet × Option (List Content) × Option JVal × Bool)) with
-    | some (ret, c, sc, ie) =>
-      let isNilRes := match ret with | .nilResult => true | _ => false
+        some (ToolRet.result c sc ie))
+      | _ => none : Option ToolRet) with
+    | some ret =>
       match sdkCallTool ret with
       | .errorInstead => (d, { model := "error" })
       | .sent ms =>
         -- the model prescribes content, structuredContent and isError; _meta / resultType (protocol
         -- version dependent) are taken from the implementation's result
         let names := [CallToolResult_Content_name, CallToolResult_StructuredContent_name, CallToolResult_IsError_name]
-        match pJ itoks with
-        | some (.obj kvs, []) =>
-          let model := showJ (.obj (kvs.filter (fun p => !names.contains p.1) ++ ms))
-          let cur := lookup CallToolResult_Content_name kvs
-          let how := (match c with | none => "nil Content" | some [] => "empty Content" | some _ => "Content") ++
-            (if sc.isSome then " and StructuredContent" else "") ++ (if ie then " and IsError" else "")
-          let viol :=
-            if d.pid != "C19" then none
-            else if isNilRes && !isArrJ cur then nilResultViol d "tools/call" impl
-            else if !isArrJ cur then
-              some (pfx d s!"required_members_present: the content member of the tools/call result is null or missing (raw tool handler returned {how})")
-            else if !contentArrOK cur then
-              some (pfx d "required_members_present: a content block of the tools/call result lacks a required member")
-            else if (match cur with | some (.arr l) => !l.all embeddedOK | _ => false) then some (pfx d f23Clause)
-            else if showOJ cur != showOJ (lookup CallToolResult_Content_name ms) then
-              some (pfx d "call_tool_content_present: the content array sent is not the encoding of the handler's blocks")
-            else if showOJ (lookup CallToolResult_StructuredContent_name kvs) != showOJ sc then
-              some (pfx d "call_tool_content_present: structuredContent sent is not the handler's value")
-            else if lookup CallToolResult_IsError_name kvs != (if ie then some (.bool true) else none) then
-              some (pfx d "call_tool_content_present: isError sent is not the handler's flag")
-            else none
-          (d, { model := model, violated := viol })
-        | _ =>
-          let viol := if d.pid != "C19" then none
-            else if isNilRes then nilResultViol d "tools/call" impl
-            else if impl == "panic" then some (pfx d "required_members_present: the server panicked while answering tools/call")
-            else some (pfx d "required_members_present: no tools/call result was sent for a handler result")
-          (d, { model := showJ (.obj ms), violated := viol })
+        let obs := pResObs impl
+        let model := match obs with
+          | .obj kvs => showJ (.obj (kvs.filter (fun p => !names.contains p.1) ++ ms))
+          | _ => showJ (.obj ms)
+        out19 d model (rcallMonitor ret obs)
     | none => bad d
   | "r.zero" :: method :: variant :: _ver =>
     -- variant: nil / empty / emptytext = what the handler left in the required list; nilres = the
@@ -988,27 +934,16 @@ def stepWire (d : DState) (toks : List String) (impl : String) : DState × Verdi
       | .errorInstead => (d, { model := "error" })
       | .sent lv =>
         -- the model describes the required list member only; the rest is taken from the implementation
-        match pJ itoks with
-        | some (ji, []) =>
-          let cur := getPath k.path ji
-          let base := match ji with | .obj _ => ji | _ => .obj []
-          let model := match lv, cur with
-            | .arr [], some (.arr l) => showJ (setPath k.path (.arr l) base)   -- any array will do
-            | lv, _ => showJ (setPath k.path lv base)
-          let viol :=
-            if d.pid == "C19" && nilres && !isArrJ cur then nilResultViol d method impl
-            else if d.pid == "C19" && !isArrJ cur then
-              some (pfx d s!"required_members_present: required list member of the {method} result is null or missing" ++
-                (if k == .getPrompt || k == .complete then " (F15)" else ""))
-            else if d.pid == "C19" && k == .readResource &&
-                (match cur with | some (.arr l) => !l.all resourceOK | _ => false) then
-              some (pfx d f23Clause)
-            else none
-          (d, { model := model, violated := viol })
-        | _ => (d, { model := "result", violated :=
-            if d.pid != "C19" then none
-            else if nilres then nilResultViol d method impl
-            else some (pfx d "required_members_present: no result") })
+        let obs := pResObs impl
+        let model := match (match obs with | .obj kvs => some (JVal.obj kvs) | .val j => some j | _ => none : Option JVal) with
+          | some ji =>
+            let cur := getPath k.path ji
+            let base := match ji with | .obj _ => ji | _ => .obj []
+            (match lv, cur with
+              | .arr [], some (.arr l) => showJ (setPath k.path (.arr l) base)   -- any array will do
+              | lv, _ => showJ (setPath k.path lv base))
+          | none => "result"
+        out19 d model (rzeroMonitor k method nilres obs)
     | none => bad d
   ----------------------------------------------------------------- paged lists on a real session
   | ["r.pg.new", ps] =>
@@ -1032,27 +967,24 @@ def stepWire (d : DState) (toks : List String) (impl : String) : DState × Verdi
       if !k.isPaged then bad d else
       let keys := d.pg.get k
       let page := listPage k (fun u => .str u) keys d.pg.ps c
-      let viol :=
-        if d.pid != "C19" then none
-        else match itoks.head? with
-          | some "null" => some (pfx d s!"required_lists_present: \"{memberName k}\":null in the {method} result on the wire — {cursorPos keys c}, page size {d.pg.ps}: the list member must be an array" ++
-              (if (pageSeq keys c).isEmpty then " (here the EMPTY array)" else ""))
-          | some "missing" => some (pfx d s!"required_lists_present: the {method} result on the wire has no \"{memberName k}\" member — {cursorPos keys c}, page size {d.pg.ps}")
-          | some "other" => some (pfx d s!"required_lists_present: the \"{memberName k}\" member of the {method} result on the wire is not an array — {cursorPos keys c}, page size {d.pg.ps}")
-          | _ => none
-      (d, { model := showPage page, violated := viol })
+      let obs : PgObs := match itoks.head? with
+        | some "null" => .null
+        | some "missing" => .missing
+        | some "other" => .notArray
+        | _ => .fine
+      out19 d (showPage page) (rpgMonitor k keys d.pg.ps c obs)
     | _, _ => bad d
   ----------------------------------------------------------------- ioConn
   | ["io.new", cap] =>
     match cap.toNat? with
-    | some n => ({ pid := d.pid, also := d.also, io := { outCap := n } }, { model := "ok" })
+    | some n => ({ pid := d.pid, also := d.also, io := { outCap := n }, mon := { outCap := n } }, { model := "ok" })
     | none => bad d
   | "io.feed" :: r =>
     match pJ r with
-    | some (w, []) => ({ d with io := { d.io with wire := d.io.wire ++ [w] }, mwire := d.mwire ++ [w] }, { model := "ok" })
+    | some (w, []) => ({ d with io := { d.io with wire := d.io.wire ++ [w] }, mon := ioFeed d.mon w }, { model := "ok" })
     | _ => bad d
   | ["io.ver", f] =>
-    ({ d with io := { d.io with noBatch := f == "1" }, mnoBatch := f == "1" }, { model := "ok" })
+    ({ d with io := { d.io with noBatch := f == "1" }, mon := ioVer d.mon (f == "1") }, { model := "ok" })
   | ["io.eof"] => ({ d with eofFed := true }, { model := "ok" })
   | ["io.read"] =>
     -- the harness does not issue a Read that would block (nothing queued, nothing fed, input open)
@@ -1064,130 +996,42 @@ def stepWire (d : DState) (toks : List String) (impl : String) : DState × Verdi
       | .msg m => s!"msg {showMsg m} q{q}"
       | .err e => s!"err {showRErr e} q{q}"
     -- monitor (on the implementation's observation only)
-    let implOK := impl.startsWith "msg "
-    let implQ := ((lastTok impl).drop 1).toString.toNat?.getD 0
-    let implMsg : Option Msg := match itoks with
-      | "msg" :: r => (pMsg r).map (·.1)
-      | _ => none
-    let same (m : Msg) (e : JVal) (which : String) : Option String :=
-      if !validWire e then none else
-      match wireDiff e (encodeMsg m) with
-      | none => none
-      | some "id" =>
-        let idw := match e with | .obj kvs => lookup wireDecode_ID_name kvs | _ => none
-        if bigInt idw then some (pfx d s!"batch_roundtrip: Read returned the frame's {which} element with its integer id beyond 2^53 altered (F1)")
-        else some (pfx d s!"batch_roundtrip: Read returned a message whose id differs from the frame's {which} element")
-      | some f => some (pfx d s!"batch_roundtrip: Read returned a message whose {f} differs from the frame's {which} element")
-    if impl == "panic" || impl == "hang" then
-      -- the reader of the connection is gone (or stuck): everything after this frame is lost
-      let fr := match d.mexpect, d.mwire with
-        | [], raw :: _ => frameDesc raw
-        | _, _ => "already accepted (a queued message)"
-      let what := if impl == "panic" then "panicked" else "did not return"
-      let d1 := match d.mexpect, d.mwire with
-        | [], _ :: w => { d with mwire := w }
-        | _ :: rest, _ => { d with mexpect := rest }
-        | _, _ => d
-      let v := if d.pid == "C02" then
-          some (pfx d s!"batch_exactly_once: ioConn.Read {what} on the frame {fr}: the reader is gone, no call is answered any more")
-        else if d.pid == "C19" then some (pfx d s!"decode_total: ioConn.Read {what} on the frame {fr}")
-        else none
-      ({ d1 with io := io' }, { model := model, violated := v })
-    else
-    let (d1, v19, v02, v03) : DState × Option String × Option String × Option String :=
-      match d.mexpect with
-      | e :: rest =>
-        -- a message of an already accepted frame
-        -- judged only when the next element written is a valid wire message (what an invalid one decodes
-        -- to is the model's business, not the order clause's)
-        let ooo := match implMsg with
-          | some m => validWire e && outOfOrder sameMsgWire (e :: rest) m
-          | none => false
-        let v := match implMsg with
-          | some m => if ooo then some (pfx d ("batch_roundtrip: " ++ orderClause)) else same m e "next"
-          | none => some (pfx d "batch_roundtrip: Read failed on a message of an already accepted frame")
-        ({ d with mexpect := rest }, v, none, if ooo then some ("C03: " ++ orderClause) else none)
-      | [] =>
-        match d.mwire with
-        | [] => (d, (if impl.startsWith "err eof" then none else some (pfx d "batch_roundtrip: Read returned something at the end of the input")), none, none)
-        | raw :: w =>
-          let d := { d with mwire := w }
-          match frameElems raw with
-          | none => (d, none, none, none)
-          | some (elems, isBatch) =>
-            let wf := wellFormedBatch d elems && !(isBatch && d.mnoBatch)
-            let calls := elems.filterMap isCallW
-            let hasNotif := elems.any isNotifW
-            if implOK then
-              let ooo := match implMsg, elems with
-                | some m, e :: _ => validWire e && outOfOrder sameMsgWire elems m
-                | _, _ => false
-              let v := match implMsg, elems with
-                | some m, e :: _ => if ooo then some (pfx d ("batch_roundtrip: " ++ orderClause)) else same m e "first"
-                | _, _ => none
-              let v := if v.isNone && implQ != elems.length - 1 then
-                  some (pfx d s!"batch_roundtrip: Read took a frame of {elems.length} messages but queued {implQ} for the following reads")
-                else v
-              -- messages of an accepted frame that never come out of Read are lost for every property that
-              -- speaks about them: a lost response leaves its call blocked (C01), a lost call is never
-              -- answered (C02), a lost notification is never dispatched (C03)
-              let vLost : Option String := if implQ != elems.length - 1 then
-                  some s!"C01+C02+C03: ioConn.Read took a frame of {elems.length} messages but queued {implQ} for the following reads: the other messages of the batch are lost (a lost response leaves its call blocked for ever, a lost call is never answered, a lost notification is never dispatched)"
-                else none
-              let d := { d with mexpect := (elems.drop 1).take implQ }
-              let d := if isBatch && calls ≠ [] then { d with mopen := d.mopen ++ [{ slots := calls.map (fun c => (c, none)), hasNotif := hasNotif }] } else d
-              (d, v, vLost, if ooo then some ("C03: " ++ orderClause) else none)
-            else
-              let f2 := isBatch && hasNotif && (impl.startsWith "err dup" || impl.startsWith "err seen")
-              let v19 := if !wf then none
-                else if f2 then some (pfx d "batch_roundtrip: a well-formed batch containing a notification is rejected by Read (notifications are tracked like calls, F2)")
-                else some (pfx d "batch_roundtrip: a well-formed frame is rejected by Read")
-              let v02 := if !wf then none
-                else if f2 then some (pfx d "batch_exactly_once: a well-formed batch containing a notification is rejected as a duplicate id; the read error tears the session down (F2)")
-                else some (pfx d "batch_exactly_once: a well-formed batch is rejected by Read")
-              ({ d with mexpect := (elems.drop 1).take implQ }, v19, v02, none)
-    -- v02 speaks of rejected frames only, v03 of accepted ones: at most one of them is set
-    let viol := if d.pid == "C02" then (if d.also.contains "C03" then v02.orElse (fun _ => v03) else v02)
-      else if d.pid == "C03" then v03 else v19
-    ({ d1 with io := io' }, { model := model, violated := viol })
+    let (mon', verd) := ioRead d.mon (pReadObs impl)
+    let viol := verd.select (pidOf d.pid) (d.also.contains "C03")
+    ({ d with io := io', mon := mon' }, { model := model, violated := viol.map (clauseText d.pid) })
   | "io.write" :: r =>
     match pMsg r with
     | some (m, []) =>
       let (io', out) := opWrite d.io m
-      let (open', exp, hasNotif) := monWrite d.mopen m
-      let implKind := itoks.head?.getD ""
-      let implVals : List JVal := (pMany pJ (itoks.drop 1)).1
-      -- C19: what is written is a well-framed encoding of the message(s) given
-      let v19 : Option String :=
-        if implKind == "panic" then some (pfx d "decode_total: ioConn.Write panicked")
-        else if implKind == "badframe" then some (pfx d "ndjson_roundtrip: the bytes written are not one compact payload followed by a single LF")
-        else if implKind == "single" then
-          (match implVals with
-            | [v] => if (wireDiff v (encodeMsg m)).isNone then none else some (pfx d "batch_roundtrip: the message written differs from the message given")
-            | _ => some (pfx d "bad-observation"))
-        else none
-      -- C02: batch replies
-      let v02 : Option String :=
-        if implKind == "panic" then some (pfx d "batch_exactly_once: ioConn.Write panicked")
-        else match exp with
-          | .nothing =>
-            if implKind == "nothing" then none
-            else some (pfx d "batch_exactly_once: batch reply flushed before the last call of the batch was answered")
-          | .single _ =>
-            if implKind == "single" then none
-            else if d.io.outCap > 0 && (implKind == "nothing" || implKind == "array") then none
-            else some (pfx d "batch_exactly_once: a message outside any batch was not written on its own")
-          | .array ms =>
-            if implKind == "array" then
-              if implVals.length = ms.length && (List.zip ms implVals).all (fun p => msgMatchesWire p.1 p.2) then none
-              else some (pfx d "batch_exactly_once: the flushed array is not exactly one response per call of the batch, in call order")
-            else if implKind == "nothing" then
-              some (if hasNotif then pfx d "batch_exactly_once: batch reply withheld after its last call was answered — the batch contains a notification (F2)"
-                    else pfx d "batch_exactly_once: batch reply withheld after its last call was answered")
-            else some (pfx d "batch_exactly_once: last response of a batch written on its own instead of the batch array")
-      let viol := if d.pid == "C02" then v02 else v19
-      ({ d with io := io', mopen := open' }, { model := showWriteOut out, violated := viol })
+      let (mon', verd) := ioWrite d.mon m (pWriteObs impl)
+      let viol := verd.selectWrite (pidOf d.pid)
+      ({ d with io := io', mon := mon' }, { model := showWriteOut out, violated := viol.map (clauseText d.pid) })
     | _ => bad d
+  | "nd.split" :: r =>
+    -- `(x<value> x<separator>)*`: the bytes of a newline-delimited stream through the reader goroutine of the
+    -- real `newIOConn`; observed: `n<k> x<value>* eof|trailing|other`
+    match (match pMany (fun ts => match ts with
+        | a :: b :: r => (do let v ← pHexTok "x" a; let w ← pHexTok "x" b; some ((v, w), r))
+        | _ => none : P (Bytes × Bytes)) r with | (l, []) => some l | _ => none : Option (List (Bytes × Bytes))) with
+    | some l =>
+      let res := readStream (joinWs l)
+      let showEnd : StreamEnd → String
+        | .eof => "eof" | .trailing => "trailing" | .noValue => "other"
+      let model := " ".intercalate ([s!"n{res.1.length}"] ++ res.1.map (fun v => "x" ++ hexB v) ++ [showEnd res.2])
+      let obs : NdObs := match crashOf impl with
+        | some c => .crash c
+        | none =>
+          match itoks with
+          | hd :: rest =>
+            let vals := rest.dropLast.filterMap (pHexTok "x")
+            let fin : Option StreamEnd := match rest.getLast? with
+              | some "eof" => some .eof | some "trailing" => some .trailing | some "other" => some .noValue | _ => none
+            (match fin with
+              | some f => if hd == s!"n{vals.length}" && vals.length + 1 == rest.length then .read vals f else .garbled
+              | none => .garbled)
+          | [] => .garbled
+      out19 d model (ndSplitMonitor l obs)
+    | none => bad d
   ----------------------------------------------------------------- frames through the other readers
   | "io.rb" :: r =>
     -- readBatch on its own
@@ -1196,12 +1040,11 @@ def stepWire (d : DState) (toks : List String) (impl : String) : DState × Verdi
       let model := match readBatch raw with
         | .ok (ms, b) => s!"ok {ms.length} {if b then "batch" else "single"}"
         | .error e => "err " ++ showRErr e
-      let viol := if d.pid != "C19" then none
-        else if impl == "panic" then some (pfx d s!"decode_total: readBatch panicked on the frame {frameDesc raw}")
-        else if impl.startsWith "ok 0 " then
-          some (pfx d s!"batch_roundtrip: readBatch accepted the frame {frameDesc raw}, which carries no message (ioConn.Read takes msgs[0] of what it returns)")
-        else none
-      (d, { model := model, violated := viol })
+      let obs : RbObs := if impl == "panic" then .panic
+        else match itoks with
+          | "ok" :: n :: _ => (match n.toNat? with | some n => .ok n | none => .other)
+          | _ => .other
+      out19 d model (rbMonitor raw obs)
     | _ => bad d
   | "h.post" :: path :: r =>
     -- the frame as the body of a POST to the streamable handler (stateless / stateful) or to the
@@ -1212,11 +1055,7 @@ def stepWire (d : DState) (toks : List String) (impl : String) : DState × Verdi
         else (match readBatch raw with | .ok _ => false | .error _ => true)
       let model := if malformed then "malformed"
         else if impl == "malformed" || impl == "panic" || impl == "hang" then "accepted" else impl
-      let viol := if d.pid != "C19" then none
-        else if impl == "panic" then some (pfx d s!"decode_total: the {path} POST handler panicked on the body {frameDesc raw}")
-        else if impl == "hang" then some (pfx d s!"decode_total: the {path} POST handler did not return on the body {frameDesc raw}")
-        else none
-      (d, { model := model, violated := viol })
+      out19 d model (postMonitor path raw (crashOf impl))
     | _ => bad d
   | "live.io" :: ver :: r =>
     -- a real server session on an io transport (child process): initialize, the frame, a ping
@@ -1226,11 +1065,7 @@ def stepWire (d : DState) (toks : List String) (impl : String) : DState × Verdi
       let model := match (opRead false s0).2 with
         | .msg _ => "alive"
         | .err _ => "closed"
-      let viol := if d.pid != "C19" then none
-        else if impl == "panic" then some (pfx d s!"decode_total: a server session on an io transport panicked on the frame {frameDesc raw} (the process crashed)")
-        else if impl == "hang" then some (pfx d s!"decode_total: a server session on an io transport neither answered nor ended after the frame {frameDesc raw}")
-        else none
-      (d, { model := model, violated := viol })
+      out19 d model (liveIoMonitor raw (crashOf impl))
     | _ => bad d
   | "live.cli" :: kind :: r =>
     -- a real streamable client whose ping is answered with the frame as JSON body / as SSE event data
@@ -1239,22 +1074,16 @@ def stepWire (d : DState) (toks : List String) (impl : String) : DState × Verdi
       let model := match decodeMsg raw with
         | .ok _ => "ok"
         | .error _ => "error"
-      let viol := if d.pid != "C19" then none
-        else if impl == "panic" then some (pfx d s!"decode_total: the streamable client panicked on the {kind} response body {frameDesc raw} (the process crashed)")
-        else if impl == "hang" then some (pfx d s!"decode_total: the streamable client's call neither returned nor failed on the {kind} response body {frameDesc raw}")
-        else if kind.startsWith "sse." && model == "ok" && impl == "error" then
-          some (pfx d s!"sse_roundtrip_any_eol: the streamable client's call failed although its response arrived in a well-formed event stream (framing {kind.drop 4}: a peer may end lines in CRLF, send comments, ids, retry and split data)")
-        else none
-      (d, { model := model, violated := viol })
+      let obs : CliObs := match crashOf impl with
+        | some c => .crash c
+        | none => if impl == "error" then .error else .other
+      let framing : Option String := if kind.startsWith "sse." then some (kind.drop 4).toString else none
+      out19 d model (liveCliMonitor kind framing raw obs)
     | _ => bad d
   ----------------------------------------------------------------- decode fuzz of the protocol types
   | "r.fuzz" :: ty :: r =>
     match pJ r with
-    | some (j, []) =>
-      let viol := if d.pid != "C19" || impl != "panic" then none
-        else if hasNullInputRequest j then some (pfx d f32Null)
-        else some (pfx d s!"decode_total: decoding a {ty} panicked on a near-valid JSON value (a null / wrong-typed / wrong-case member)")
-      (d, { model := "nopanic", violated := viol })
+    | some (j, []) => out19 d "nopanic" (rfuzzMonitor ty j (isPanic impl))
     | _ => bad d
   | "r.case" :: ty :: path :: key :: jr =>
     -- one member name changed in case somewhere in a valid value of the type; the harness decodes that,
@@ -1262,37 +1091,18 @@ def stepWire (d : DState) (toks : List String) (impl : String) : DState × Verdi
     -- foreign name is ignored (a struct position) the case variant must be ignored as well
     let model := if impl.startsWith "map" then impl else "struct same"
     let name := ((pHexTok "s" key).bind (fun b => String.fromUTF8? (ByteArray.mk b.toArray))).getD "?"
-    let viol := if d.pid != "C19" then none
-      else if impl == "panic" then some (pfx d s!"decode_total: decoding a {ty} panicked on a value with the member {name} spelled in another case")
-      else if impl.startsWith "struct differ" then
-        let idx := (path.splitOn ".").filterMap String.toNat?
-        let above := match pJ jr with
-          | some (j, []) => (pathKeys j idx).dropLast
-          | _ => []
-        if above.contains CallToolResult_InputRequests_name || above.contains inputResponsesName then
-          some (pfx d s!"decode_case_sensitive: below inputRequests / inputResponses member names are matched without regard to case (InputRequestMap / InputResponseMap decode with encoding/json, F32): decoding a {ty} matched a member spelled {name}")
-        else
-          some (pfx d s!"decode_case_sensitive: decoding a {ty} matched a member spelled {name}, which differs in case from the declared name")
-      else none
-    (d, { model := model, violated := viol })
+    let obs : CaseObs := if impl == "panic" then .panic else if impl.startsWith "struct differ" then .structDiffer else .other
+    let idx := (path.splitOn ".").filterMap String.toNat?
+    let j : Option JVal := match pJ jr with | some (j, []) => some j | _ => none
+    out19 d model (rcaseMonitor ty name j idx obs)
   | "r.irm" :: r =>
     match pJ r with
     | some (j, []) =>
       let model := match decodeInputRequests j with
         | .ok l => " ".intercalate ("ok" :: (sortMembers (dedupLast (l.map (fun p => (p.1, JVal.str p.2))))).flatMap (fun p => [hexB p.1, showJ p.2]))
         | .error _ => "err"
-      let entries : List JVal := match j with | .obj kvs => kvs.map (·.2) | _ => []
-      let caseVar := entries.any (fun e => match e with
-        | .obj mem => mem.any (fun p => caseVariant irmRaw_Method_name p.1 || caseVariant irmRaw_Params_name p.1)
-        | _ => false)
-      let viol := if d.pid != "C19" then none
-        else if impl == "panic" then
-          (if entries.any (· == .null) then some (pfx d f32Null)
-           else some (pfx d "decode_total: InputRequestMap.UnmarshalJSON panicked on a near-valid value"))
-        else if model == "err" && impl.startsWith "ok" && caseVar then
-          some (pfx d "decode_case_sensitive: InputRequestMap.UnmarshalJSON matched an entry member whose name differs in case from method/params (it decodes with encoding/json, F32)")
-        else none
-      (d, { model := model, violated := viol })
+      let obs : IrmObs := if impl == "panic" then .panic else if impl.startsWith "ok" then .ok else .other
+      out19 d model (rirmMonitor j obs)
     | _ => bad d
   | _ => bad d
 
